@@ -22,12 +22,17 @@ pub mod selftest;
 pub mod c01;
 pub mod c02;
 pub mod c03;
+pub mod c04;
 pub mod c06;
 pub mod c07;
 pub mod c08;
 pub mod c09;
+pub mod c10;
+pub mod c12;
+pub mod c12_data;
+pub mod fma_data;
 
 /// name -> native replay entry of every harness
 pub fn table() -> impl Iterator<Item = &'static (&'static str, fn())> {
-    c01::TABLE.iter().chain(c02::TABLE.iter()).chain(c03::TABLE.iter()).chain(c06::TABLE.iter()).chain(c07::TABLE.iter()).chain(c08::TABLE.iter()).chain(c09::TABLE.iter())
+    c01::TABLE.iter().chain(c02::TABLE.iter()).chain(c03::TABLE.iter()).chain(c04::TABLE.iter()).chain(c04::agreement::TABLE.iter()).chain(c06::TABLE.iter()).chain(c07::TABLE.iter()).chain(c08::TABLE.iter()).chain(c09::TABLE.iter()).chain(c10::TABLE.iter()).chain(c12::TABLE.iter())
 }
